@@ -174,3 +174,22 @@ package scheduler
 //@   at[cancelled] call scheduler.PartitionContext.decReservationCount#1: assert arg1 == result.CancelledReservations
 //@ spec abstract appfound(p *PartitionContext, id string) bool
 //@ spec abstract nodefound(p *PartitionContext, id string) bool
+
+// ================================================================ C16: configuration reload
+
+// an accepted reload leaves every application, allocation, reservation and every queue's allocated / pending /
+// preempting totals and counters exactly as they were: the write set of the reload path, re-derived from the SSA of the
+// working tree (everything it may call included), contains none of the run-time ledger components
+//@ frame reloadKeepsRunningState props C16 from scheduler.PartitionContext.updatePartitionDetails : F_objects_Queue_allocatedResource F_objects_Queue_pending F_objects_Queue_preemptingResource F_objects_Queue_applications F_objects_Queue_reservedApps F_objects_Queue_runningApps F_objects_Queue_allocatingAcceptedApps F_objects_Application_* F_objects_Allocation_* F_objects_Node_* F_objects_reservation_* F_scheduler_PartitionContext_applications F_scheduler_PartitionContext_reservations F_scheduler_PartitionContext_allocations F_scheduler_PartitionContext_placeholderAllocations F_scheduler_PartitionContext_foreignAllocs F_scheduler_PartitionContext_nodes F_scheduler_PartitionContext_totalPartitionResource Mdom_string_Pobjects_Application Mval_string_Pobjects_Application Mdom_string_Pobjects_Allocation Mval_string_Pobjects_Allocation Mdom_string_resources_Quantity Mval_string_resources_Quantity
+
+// queues of the running configuration that the new configuration does not mention are marked for removal (draining),
+// exactly those; every configured child is created or updated and then recursed into
+//@ func (pc *PartitionContext) updateQueues(config []configs.QueueConfig, parent *objects.Queue) (err error)
+//@   props C16
+//@   sweep
+//@   mode nopanic=off
+//@   at[unvisited] call objects.Queue.MarkQueueForRemoval#1: assert arg0 == childQueue && !visited[childName]
+//@   at[create] call objects.NewConfiguredQueue#1: assert queue == nil && arg1 == parent
+//@   at[update] call objects.Queue.ApplyConf#1: assert arg0 == queue && queue != nil
+//@   at[inherit] call objects.Queue.MergeParentProperties#1: assert arg0 == queue
+//@   at[recurse] call scheduler.PartitionContext.updateQueues#1: assert arg2 == queue && queue != nil
